@@ -52,6 +52,16 @@ type Argon2IDHasher struct {
 }
 
 func NewArgon2IDHasher(params *Argon2IDParams) (*Argon2IDHasher, error) {
+	// argon2.IDKey() panics on these values
+	if params.Time < 1 {
+		return nil, fmt.Errorf("Argon2id parameter-set has invalid number of iterations: %d", params.Time)
+	}
+	if params.Threads < 1 {
+		return nil, fmt.Errorf("Argon2id parameter-set has invalid degree of parallelism: %d", params.Threads)
+	}
+	if params.Length < 1 {
+		return nil, fmt.Errorf("Argon2id parameter-set has invalid tag length: %d", params.Length)
+	}
 	return &Argon2IDHasher{Argon2IDParams: *params}, nil
 }
 
